@@ -27,6 +27,8 @@ import (
 	"github.com/cosmos/cosmos-sdk/simapp"
 	"github.com/cosmos/cosmos-sdk/simapp/helpers"
 	sdk "github.com/cosmos/cosmos-sdk/types"
+	"github.com/cosmos/cosmos-sdk/types/tx/signing"
+	authsign "github.com/cosmos/cosmos-sdk/x/auth/signing"
 	authtypes "github.com/cosmos/cosmos-sdk/x/auth/types"
 	banktypes "github.com/cosmos/cosmos-sdk/x/bank/types"
 	stakingtypes "github.com/cosmos/cosmos-sdk/x/staking/types"
@@ -102,6 +104,11 @@ type Chain struct {
 	LastHeader *xibctmtypes.Header // signed header of the last committed block
 	// Headers keeps every signed header by height (for light-client updates to older heights).
 	Headers map[int64]*xibctmtypes.Header
+
+	// Trace, when non-nil, receives one line per ABCI response (used by the determinism check).
+	Trace func(line string)
+	// RawTrace, when non-nil, receives the full log and events of every DeliverTx (debugging aid).
+	RawTrace func(line string)
 }
 
 // ChainOpts configures NewChain.
@@ -265,8 +272,12 @@ func (c *Chain) Ctx() sdk.Context {
 
 // Commit ends and commits the open block, signs its header, and opens the next block dt later.
 func (c *Chain) Commit(dt time.Duration) {
-	c.App.EndBlock(abci.RequestEndBlock{Height: c.Header.Height})
-	c.App.Commit()
+	eb := c.App.EndBlock(abci.RequestEndBlock{Height: c.Header.Height})
+	cm := c.App.Commit()
+	if c.Trace != nil {
+		c.Trace(fmt.Sprintf("%s h=%d endblock events=%s valupdates=%d", c.ChainID, c.Header.Height, eventsDigest(eb.Events), len(eb.ValidatorUpdates)))
+		c.Trace(fmt.Sprintf("%s h=%d commit apphash=%x", c.ChainID, c.Header.Height, cm.Data))
+	}
 	c.LastHeader = c.signedHeader(c.Header)
 	c.Headers[c.Header.Height] = c.LastHeader
 	c.Now = c.Now.Add(dt).UTC()
@@ -279,7 +290,22 @@ func (c *Chain) Commit(dt time.Duration) {
 		NextValidatorsHash: c.Vals.Hash(),
 		ProposerAddress:    c.Vals.Proposer.Address,
 	}
-	c.App.BeginBlock(abci.RequestBeginBlock{Header: c.Header})
+	bb := c.App.BeginBlock(abci.RequestBeginBlock{Header: c.Header})
+	if c.Trace != nil {
+		c.Trace(fmt.Sprintf("%s h=%d beginblock events=%s", c.ChainID, c.Header.Height, eventsDigest(bb.Events)))
+	}
+}
+
+// eventsDigest hashes events in order (type, attribute keys and values).
+func eventsDigest(evs []abci.Event) string {
+	h := tmhash.New()
+	for _, e := range evs {
+		fmt.Fprintf(h, "T%d:%s;", len(e.Type), e.Type)
+		for _, a := range e.Attributes {
+			fmt.Fprintf(h, "K%d:%s=V%d:%s;", len(a.Key), a.Key, len(a.Value), a.Value)
+		}
+	}
+	return fmt.Sprintf("%d/%x", len(evs), h.Sum(nil)[:8])
 }
 
 // SetTime moves the open block's time (re-running BeginBlock is avoided: only the header used for
@@ -356,12 +382,23 @@ func (c *Chain) BuildTx(acct Account, msgs ...sdk.Msg) []byte {
 	if a == nil {
 		Failf("account %s does not exist on %s", acct.Acc, c.ChainID)
 	}
-	tx, err := helpers.GenTx(c.TxConfig, msgs,
-		sdk.Coins{sdk.NewInt64Coin(sdk.DefaultBondDenom, 0)},
-		helpers.DefaultGenTxGas*4, c.ChainID,
-		[]uint64{a.GetAccountNumber()}, []uint64{a.GetSequence()}, acct.Priv)
-	Must(err, "GenTx")
-	bz, err := c.TxConfig.TxEncoder()(tx)
+	// deterministic equivalent of simapp helpers.GenTx (which draws a random memo from the wall clock)
+	signMode := c.TxConfig.SignModeHandler().DefaultMode()
+	sig := signing.SignatureV2{PubKey: acct.Priv.PubKey(), Data: &signing.SingleSignatureData{SignMode: signMode}, Sequence: a.GetSequence()}
+	b := c.TxConfig.NewTxBuilder()
+	Must(b.SetMsgs(msgs...), "SetMsgs")
+	Must(b.SetSignatures(sig), "SetSignatures")
+	b.SetMemo("")
+	b.SetFeeAmount(sdk.Coins{sdk.NewInt64Coin(sdk.DefaultBondDenom, 0)})
+	b.SetGasLimit(helpers.DefaultGenTxGas * 4)
+	signBytes, err := c.TxConfig.SignModeHandler().GetSignBytes(signMode,
+		authsign.SignerData{ChainID: c.ChainID, AccountNumber: a.GetAccountNumber(), Sequence: a.GetSequence()}, b.GetTx())
+	Must(err, "sign bytes")
+	sigBz, err := acct.Priv.Sign(signBytes)
+	Must(err, "sign")
+	sig.Data.(*signing.SingleSignatureData).Signature = sigBz
+	Must(b.SetSignatures(sig), "SetSignatures")
+	bz, err := c.TxConfig.TxEncoder()(b.GetTx())
 	Must(err, "encode tx")
 	return bz
 }
@@ -369,6 +406,13 @@ func (c *Chain) BuildTx(acct Account, msgs ...sdk.Msg) []byte {
 // DeliverRaw delivers raw tx bytes into the open block.
 func (c *Chain) DeliverRaw(bz []byte) TxResult {
 	res := c.App.BaseApp.DeliverTx(abci.RequestDeliverTx{Tx: bz})
+	if c.Trace != nil {
+		c.Trace(fmt.Sprintf("%s h=%d delivertx tx=%x code=%d codespace=%s gas=%d/%d data=%x log=%x events=%s", c.ChainID, c.Header.Height, tmhash.Sum(bz)[:6],
+			res.Code, res.Codespace, res.GasUsed, res.GasWanted, tmhash.Sum(res.Data)[:8], tmhash.Sum([]byte(res.Log))[:8], eventsDigest(res.Events)))
+	}
+	if c.RawTrace != nil {
+		c.RawTrace(fmt.Sprintf("%s h=%d code=%d log=%s events=%v", c.ChainID, c.Header.Height, res.Code, res.Log, res.Events))
+	}
 	return TxResult{Code: res.Code, Log: res.Log, Events: res.Events, Data: res.Data, Raw: bz}
 }
 
